@@ -75,6 +75,7 @@ func main() {
 		c := core.NewCtx("DBG", "quick")
 		rules.DebugShared(c)
 		rules.DebugEntryLocks(c)
+		rules.DebugAppWrites(c)
 		return
 	}
 	if os.Args[1] == "debug-layout" {
